@@ -306,6 +306,12 @@ pub fn parenthesize_invisible_groups(input: proc_macro2::TokenStream) -> proc_ma
             [.., TokenTree::Punct(p)] if p.as_char() == '&' => true,
             [.., TokenTree::Punct(p), TokenTree::Ident(_)] if p.as_char() == '\'' => true,
             [.., TokenTree::Ident(i)] => i == "mut" || i == "const",
+            // `&$l $t` with a `$l:lifetime` fragment
+            [.., TokenTree::Punct(p), TokenTree::Group(g)] => {
+                p.as_char() == '&'
+                    && g.delimiter() == Delimiter::None
+                    && syn::parse2::<syn::Lifetime>(g.stream()).is_ok()
+            }
             _ => false,
         }
     }
